@@ -539,7 +539,34 @@ impl TrigramIndex {
                 }
             }
         }
-        prepare_tail(counts, size)
+        let mut __items0: Vec<(usize, &usize)> = Vec::new();
+        let mut __p0 = 0;
+        while __p0 < counts.len()
+        {
+            let __ix = __p0;
+            __p0 += 1;
+            let __cur = (__ix, &counts[__ix]);
+            let __keep = {
+                let count = *__cur.1;
+                count > 0
+            };
+            if !__keep {
+                continue;
+            }
+            __items0.push(__cur);
+        }
+        let __sel0 = limit_sort_all(__items0, size * 10, CmpCounts);
+        let mut __out0: Vec<usize> = Vec::new();
+        let mut __q0 = 0;
+        while __q0 < __sel0.len()
+        {
+            let __jx = __q0;
+            __q0 += 1;
+            let ix = __sel0[__jx].0;
+            let __cur = ix;
+            __out0.push(__cur);
+        }
+        __out0
     }
     fn collect_grams(text: &TextRef) -> (ret: Vec<[char; 3]>)
     {
@@ -631,7 +658,29 @@ impl Store {
                 return ixs.clone();
             }
         }
-        let ixs = top_ixs_tail(&self.records, self.limit);
+        let ixs = {
+            let mut __items0: Vec<&Record> = Vec::new();
+            let mut __p0 = 0;
+            while __p0 < self.records.len()
+            {
+                let __ix = __p0;
+                __p0 += 1;
+                let __cur = &self.records[__ix];
+                __items0.push(__cur);
+            }
+            let __sel0 = limit_sort_all(__items0, self.limit, CmpRecords);
+            let mut __out0: Vec<usize> = Vec::new();
+            let mut __q0 = 0;
+            while __q0 < __sel0.len()
+            {
+                let __jx = __q0;
+                __q0 += 1;
+                let r = &__sel0[__jx];
+                let __cur = r.ix;
+                __out0.push(__cur);
+            }
+            __out0
+        };
         *top_ixs = Some((self.limit, ixs.clone()));
         ixs
     }
